@@ -254,11 +254,25 @@ def run(tier):
             if pre.strip(" \t"):
                 bad.append(("junkvalid", pre + t, {"junk": pre, "tmpl": t}))
     # ---- run: each bad line alone, and first / middle / last in a 3-line program of valid neighbours
+    # the valid neighbours: nops for most, and for a third of the placements lines of every family (whatever a successful lookup /
+    # parse leaves behind then meets the bad line, and the code of the valid lines in front must still be all that is emitted)
+    from .. import corpus
+    NBL = ["setnle r9b", "cmovnae r10w, r11w", "vpaddb ymm10, ymm11, [r12+r13*8+0x12345678]", "mov rax, 0x1122334455667788", "add qword [rbx+rcx*2], 7", "shld rax, rbx, 5", "jmp short 4",
+           "movzx eax, byte [rsi]", "push r15", "xchg rax, r8", "bextr r10, r11, r12", "movq xmm9, r12", "imul rax, rbx, 100", "lea r15, [rax+rsp]", "mov ah, bl", "nop7", "cqo", "vzeroupper", "paddb mm1, mm2", "xbegin 0x100"]
+    nb_alone = {mk: corpus.accepted_alone(binary, NBL, mk) for mk in enc.COMBOS}
     items, meta = [], []
     for fam, text, m in bad:
         placements = ["alone", rnd.choice(["first", "middle", "last"])] if not full else ["alone", "first", "middle", "last"]
         for pl in placements:
             mask = "211" if rnd.random() < 0.6 else rnd.choice(enc.COMBOS)
+            if pl != "alone" and len(items) % 3 == 0:
+                x1, x2 = rnd.choice(NBL), rnd.choice(NBL)
+                if x1 in nb_alone[mask] and x2 in nb_alone[mask]:
+                    prog = {"first": text + "\n" + x1 + "\n" + x2, "middle": x1 + "\n" + text + "\n" + x2, "last": x1 + "\n" + x2 + "\n" + text}[pl]
+                    valid_before = {"first": 0, "middle": len(nb_alone[mask][x1]) // 2, "last": (len(nb_alone[mask][x1]) + len(nb_alone[mask][x2])) // 2}[pl]
+                    items.append((mask, prog, 0))
+                    meta.append((fam, text, m, pl + "+", mask, valid_before))
+                    continue
             prog = {"alone": text, "first": text + "\nnop\nnop", "middle": "nop\n" + text + "\nnop", "last": "nop\nnop\n" + text}[pl]
             valid_before = {"alone": 0, "first": 0, "middle": 1, "last": 2}[pl]
             items.append((mask, prog, 0))
@@ -324,7 +338,7 @@ def run(tier):
     v.cov["rule"] = ("(i) every spec mnemonic x every operand-kind tuple over {scalar reg, xmm, ymm, memory, immediate} with 0-4 operands (781 tuples); a tuple is 'not defined in x86-64' iff nasm rejects ALL its "
                      "instantiations (live referee, %d lines this run), then instantiated for the library; (ii) every one-character edit of every register name that is lexically a name and not a register/keyword, in "
                      "register, memory-base and index positions; (iii) scales 0,3,5,6,7,9,10,16,42 in both factor orders; the stack pointer as scaled index, as index of itself, with every base; sums of 2-4 register / scaled-register / displacement terms in any order with repeated registers that contain an invalid scale or a scaled stack pointer (nasm-refereed); 8/16-bit, MMX, XMM and YMM registers as base or index and base/index of different widths; (iv) bracket / comma (leading, doubled, TRAILING after lines of every operand count) / "
-                     "operand-after-immediate / empty-operand / unknown-mnemonic syntax errors; (v) bytes 0x7f-0xff, byte order marks and UTF-8 sequences at line start / between tokens / line end, and control bytes 0x01-0x1f (except tab, CR, LF) at positions of 8 template lines, printable non-token characters inside mnemonics and register names; (vi) lines of (i)-(iv) behind 1-3 junk characters (every printable non-letter except ';', '%%' and ':'). Each alone and first/middle/last in a program with valid neighbours, "
+                     "operand-after-immediate / empty-operand / unknown-mnemonic syntax errors; (v) bytes 0x7f-0xff, byte order marks and UTF-8 sequences at line start / between tokens / line end, and control bytes 0x01-0x1f (except tab, CR, LF) at positions of 8 template lines, printable non-token characters inside mnemonics and register names; (vi) lines of (i)-(iv) behind 1-3 junk characters (every printable non-letter except ';', '%%' and ':'). Each alone and first/middle/last in a program with valid neighbours (nops, or lines of 20 different families), "
                      "option combos sampled; a sample again under chunk fitting, through the counting entry point (chunk size 8 and 0), on a library buffer at a far offset, and with leading tab / trailing comment / CRLF. Oracle: rc == EXIT_FAILURE and no byte at or after the rejected line's start differs from the prefill" % nnasm)
     v.cov["exhaustive"] = False
     v.cov.update(stats)
